@@ -95,7 +95,13 @@ class UnitValueValidator:
         Returns:
             list: Validation issues.
         """
-        return self._check_value_class(original_tag, validate_text, report_as, error_code, index_offset)
+        validation_issues = self._check_value_class(original_tag, validate_text, report_as, error_code, index_offset)
+        # As for units: also report under the overriding code (e.g. a wrongly valued Def is DEF_INVALID).
+        if error_code and validation_issues and not any(error_code == issue['code'] for issue in validation_issues):
+            new_issue = validation_issues[0].copy()
+            new_issue['code'] = error_code
+            validation_issues += [new_issue]
+        return validation_issues
 
     # def _get_tag_problem_indexes(self, original_tag, stripped_value, validation=True):
     #     """ Return list of problem indices for error messages.
